@@ -29,9 +29,9 @@ def signatures(n):
                 yield [(k, d.get(i, False)) for i, k in enumerate(ks)]
 
 
-def make(sig, method=False):
+def make(sig, method=False, self_po=False):
     names = ["p%d" % i for i in range(len(sig))]
-    parts = ["self"] if method else []
+    parts = (["self", "/"] if self_po and not any(k == "PO" for k, _ in sig) else ["self"]) if method else []
     seen_slash = False
     last_po = max([i for i, (k, _) in enumerate(sig) if k == "PO"], default=-1)
     star_done = any(k == "VARPOS" for k, _ in sig)
@@ -75,20 +75,22 @@ def search(n):
     from joblib.func_inspect import filter_args
     cases = accepted = 0
     known = {}
-    for sig, method in [(s, m) for s in signatures(n) for m in (False, True)]:
+    for sig, method in [(s, m) for s in signatures(n) for m in (False, True, "self-positional-only")]:
         if method and len(sig) >= n:
             continue  # self counts as a parameter
-        f, names, src = make(sig, method)
+        f, names, src = make(sig, bool(method), self_po=(method == "self-positional-only"))
         npos = sum(1 for k, _ in sig if k in ("PO", "POK"))
         kwnames = [nm for (k, _), nm in zip(sig, names) if k in ("PO", "POK", "KWONLY")]
         for a in range(0, npos + 2):
             args = tuple(range(1, a + 1))
             for r in range(0, len(kwnames) + 1):
                 for kws in itertools.combinations(kwnames, r):
-                    for extra in (False, True):
+                    for extra in ((False, True, "self") if method else (False, True)):
                         kwargs = {k: 50 + i for i, k in enumerate(kws)}
-                        if extra:
+                        if extra is True:
                             kwargs["zz"] = 77
+                        elif extra == "self":
+                            kwargs["self"] = 88  # accepted by Python only if self is positional-only and there is a **kwargs
                         cases += 1
                         try:
                             bound = f(*args, **kwargs)
@@ -117,7 +119,7 @@ def search(n):
                             except Exception as e:
                                 bad, what = True, "ignore=[%r] raised %r" % (key, e)
                         if bad:
-                            return dict(violation=True, cases=cases, what=what, witness=dict(signature=src.strip().splitlines()[-2].strip(), bound_method=method, args=list(args), kwargs=kwargs))
+                            return dict(violation=True, cases=cases, what=what, witness=dict(signature=src.strip().splitlines()[-2].strip(), bound_method=bool(method), args=list(args), kwargs=kwargs))
     # bound methods: the first parameter of the class-level function is bound to the instance
     class K:
         def m(self, x, y=2, *a, z=3, **k):
